@@ -27,6 +27,8 @@ theorem trailing_never_dispatches (c : Cmd) (similar : Bytes → Bytes → Bool)
     rw [loop]
     simp only [htr, ↓reduceIte, Bool.true_or]
     -- the positional part
+    unfold positionalPart
+    simp only [htr, Bool.true_or]
     split
     · next a _ =>
       split
@@ -70,7 +72,7 @@ theorem trailing_push_verbatim (c : Cmd) (similar : Bytes → Bytes → Bool) (l
         { p with pending := some { pd with rawVals := pd.rawVals ++ [tok],
                                             trailingIdx := some (pd.trailingIdx.getD pd.rawVals.length) } } := by
   rw [loop]
-  simp only [htr, ↓reduceIte, hpos, Bool.not_true, Bool.and_false, Bool.false_eq_true, Bool.true_or, hpd, Option.map_some,
+  simp only [positionalPart, htr, ↓reduceIte, hpos, Bool.not_true, Bool.and_false, Bool.false_eq_true, Bool.true_or, hpd, Option.map_some,
     hid, bne_self_eq_false, hmv, Bool.or_self, hterm, pendingPush, Option.getD_some, hident, Option.isSome_some,
     hmul]
 
@@ -84,7 +86,7 @@ theorem trailing_first_verbatim (c : Cmd) (similar : Bytes → Bytes → Bool) (
                                trailing := true } rest
         { p with pending := some { id := a.id, ident := some .index, rawVals := [tok], trailingIdx := some 0 } } := by
   rw [loop]
-  simp only [htr, ↓reduceIte, hpos, Bool.not_true, Bool.and_false, Bool.false_eq_true, Bool.true_or, hpd, Option.map_none,
+  simp only [positionalPart, htr, ↓reduceIte, hpos, Bool.not_true, Bool.and_false, Bool.false_eq_true, Bool.true_or, hpd, Option.map_none,
     resolvePending, hterm, pendingPush, hmul]
   simp [hpd]
 
